@@ -534,6 +534,20 @@ func cacheOp(cache *collection.Cache, op []any) (obs any, ok bool) {
 	case "del":
 		cache.Del(ckey(op[1]))
 		return nil, true
+	case "delseq": // Del of n consecutive keys (bulk: many distinct keys in one operation)
+		for i := int64(0); i < num(op[2]); i++ {
+			cache.Del(ckey(num(op[1]) + i))
+		}
+		return nil, true
+	case "setseq": // Set of n consecutive keys to one value
+		for i := int64(0); i < num(op[2]); i++ {
+			if len(op) > 4 {
+				cache.SetWithExpire(ckey(num(op[1])+i), val(op[3]), time.Duration(num(op[4]))*time.Millisecond)
+			} else {
+				cache.Set(ckey(num(op[1])+i), val(op[3]))
+			}
+		}
+		return nil, true
 	case "take":
 		return take(), true
 	case "take_race":
@@ -555,6 +569,173 @@ func cacheOp(cache *collection.Cache, op []any) (obs any, ok bool) {
 		return []any{"num", collection.VerifC16CacheSize(cache)}, true
 	}
 	return nil, false
+}
+
+
+// ---- a Take held inside its loader while other keys are used -----------------------------
+
+// innerBlocked reports the goroutine running the operations on other keys parked on a lock or
+// a wait (not a sleep, not a channel send: those are the executor's own synchronisation).
+func innerBlocked(stack string) bool {
+	if !strings.Contains(stack, "takeGateInner") {
+		return false
+	}
+	head := stack
+	if nl := strings.IndexByte(stack, '\n'); nl >= 0 {
+		head = stack[:nl]
+	}
+	for _, s := range []string{"[sync.Mutex.Lock", "[sync.RWMutex", "[semacquire", "[sync.WaitGroup.Wait",
+		"[sync.Cond.Wait", "[chan receive", "[select"} {
+		if strings.Contains(head, s) {
+			return true
+		}
+	}
+	return false
+}
+
+func takeGateInner(inner []any, step func(op []any), done *atomic.Int32, fin chan<- string) {
+	defer func() {
+		if r := recover(); r != nil {
+			fin <- fmt.Sprintf("panic: %v", r)
+			return
+		}
+		fin <- ""
+	}()
+	for _, o := range inner {
+		step(o.([]any))
+		done.Add(1)
+	}
+}
+
+// Forced schedule, op = ["take_gate", k, v|null, [inner ops]]: goroutine A calls Take(k) with a
+// loader that parks on a gate; while it is parked the inner operations (on OTHER keys: Set, Get,
+// Del, Take, bulk Del/Set of hundreds of keys, in the wheel-driven kind also ticks that expire
+// other entries) run to completion on another goroutine; then the gate opens and the loader
+// returns.  If the cache makes those operations wait for the loader (a coarser lock) that is
+// accepted: the gate opens as soon as the other goroutine has made no progress for 200 ms while
+// parked on a lock, and the number of operations completed before is reported.  If Take hits,
+// the loader never runs and the inner operations run afterwards.
+// Observation (placed BEFORE the inner operations' observations):
+// ["take", value|nil, loader called, loader entered while others ran, inner ops completed before the loader returned].
+func takeGate(cache *collection.Cache, op []any, out *Out, step func(op []any)) {
+	slot := len(out.Obs)
+	out.Obs = append(out.Obs, nil)
+	inner := op[3].([]any)
+	entered := make(chan struct{})
+	gate := make(chan struct{})
+	type res struct {
+		v      any
+		err    error
+		called bool
+		pnc    string
+	}
+	ra := make(chan res, 1)
+	go func() {
+		called := false
+		defer func() {
+			if r := recover(); r != nil {
+				ra <- res{pnc: fmt.Sprintf("panic: %v", r)}
+			}
+		}()
+		v, err := cache.Take(ckey(op[1]), func() (any, error) {
+			called = true
+			close(entered)
+			<-gate
+			if op[2] == nil {
+				return nil, errFetch
+			}
+			return val(op[2]), nil
+		})
+		ra <- res{v: v, err: err, called: called}
+	}()
+	fill := func(a res, ent bool, before int) bool {
+		if a.pnc != "" {
+			out.Err = a.pnc
+			return false
+		}
+		if a.err != nil {
+			if a.err != errFetch || a.v != nil {
+				out.Obs[slot] = []any{"num", -424244}
+				return true
+			}
+			out.Obs[slot] = []any{"take", nil, a.called, ent, before}
+			return true
+		}
+		out.Obs[slot] = []any{"take", unval(a.v), a.called, ent, before}
+		return true
+	}
+	select {
+	case <-entered:
+	case a := <-ra: // a hit (or a failure before the loader): nothing to hold
+		if fill(a, false, 0) {
+			for _, o := range inner {
+				step(o.([]any))
+			}
+		}
+		return
+	case <-time.After(20 * time.Second):
+		out.Err = "take_gate: Take neither called its loader nor returned"
+		return
+	}
+	var done atomic.Int32
+	fin := make(chan string, 1)
+	go takeGateInner(inner, step, &done, fin)
+	before := len(inner)
+	finished := false
+	perr := ""
+	last, since, seenBlocked := int32(-1), time.Now(), 0
+	tick := time.NewTicker(20 * time.Millisecond)
+	defer tick.Stop()
+wait:
+	for {
+		select {
+		case perr = <-fin:
+			finished = true
+			break wait
+		case <-tick.C:
+			if d := done.Load(); d != last {
+				last, since, seenBlocked = d, time.Now(), 0
+				continue
+			}
+			blocked := false
+			for _, g := range hx.Stacks() {
+				if innerBlocked(g) {
+					blocked = true
+					break
+				}
+			}
+			if blocked {
+				seenBlocked++
+			} else {
+				seenBlocked = 0
+			}
+			if (seenBlocked >= 5 && time.Since(since) > 200*time.Millisecond) || time.Since(since) > 20*time.Second {
+				before = int(done.Load())
+				break wait
+			}
+		}
+	}
+	close(gate)
+	var a res
+	select {
+	case a = <-ra:
+	case <-time.After(20 * time.Second):
+		out.Err = "take_gate: Take did not return after its loader"
+		return
+	}
+	if !finished {
+		select {
+		case perr = <-fin:
+		case <-time.After(20 * time.Second):
+			out.Err = "take_gate: operations on other keys did not return"
+			return
+		}
+	}
+	if perr != "" {
+		out.Err = perr
+		return
+	}
+	fill(a, true, before)
 }
 
 func cacheStepper(c Case) (stepper, error) {
@@ -597,11 +778,20 @@ func runCache(c Case, out *Out, realtime bool, ready func()) {
 			time.Sleep(time.Duration(num(op[1])) * time.Millisecond)
 			continue
 		}
-		if r, _ := cacheOp(cache, op); r != nil {
+		if op[0].(string) == "take_gate" {
+			takeGate(cache, op, out, func(o []any) {
+				if r, _ := cacheOp(cache, o); r != nil {
+					out.Obs = append(out.Obs, r)
+				}
+			})
+			if out.Err != "" {
+				return
+			}
+		} else if r, _ := cacheOp(cache, op); r != nil {
 			out.Obs = append(out.Obs, r)
 		}
 		if decoy != nil {
-			if d := c.Ops[(i*7+3)%len(c.Ops)]; d[0].(string) != "sleep" {
+			if d := c.Ops[(i*7+3)%len(c.Ops)]; d[0].(string) != "sleep" && d[0].(string) != "take_gate" {
 				cacheOp(decoy, d)
 			}
 		}
@@ -678,7 +868,8 @@ func runCacheW(c Case, out *Out) {
 	gate := &expiryGate{}
 	collection.VerifC16GateExpiry(cache, gate.expiryGate)
 	busy := func(stack string) bool { return cbBusy(stack) && !parked(stack) }
-	for i, op := range c.Ops {
+	var do func(op []any) bool
+	do = func(op []any) bool {
 		switch op[0].(string) {
 		case "tick":
 			for _, tk := range tickers {
@@ -700,19 +891,35 @@ func runCacheW(c Case, out *Out) {
 				gate.hold = nil
 			}
 			gate.mu.Unlock()
+		case "take_gate": // the inner operations (ticks included) run while the loader is parked
+			takeGate(cache, op, out, func(o []any) { do(o) })
+			if out.Err != "" {
+				return false
+			}
 		default:
 			if r, _ := cacheOp(cache, op); r != nil {
 				out.Obs = append(out.Obs, r)
 			}
 		}
-		if decoy != nil {
-			if d := c.Ops[(i*7+3)%len(c.Ops)]; !strings.HasPrefix(d[0].(string), "tick") && d[0].(string) != "release" {
-				cacheOp(decoy, d)
-			}
-		}
 		if !hx.Quiesce(busy, 5*time.Second) {
 			out.Err = "wheel callbacks did not quiesce"
-			return
+			return false
+		}
+		return true
+	}
+	for i, op := range c.Ops {
+		if !do(op) {
+			break
+		}
+		if decoy != nil {
+			if d := c.Ops[(i*7+3)%len(c.Ops)]; !strings.HasPrefix(d[0].(string), "tick") && d[0].(string) != "release" &&
+				d[0].(string) != "take_gate" {
+				cacheOp(decoy, d)
+				if !hx.Quiesce(busy, 5*time.Second) {
+					out.Err = "wheel callbacks did not quiesce"
+					break
+				}
+			}
 		}
 	}
 	// never leave callbacks parked
